@@ -34,6 +34,10 @@ type lifeCase struct {
 	ParkMS   int      `json:"park_ms"`
 	Seed     int64    `json:"seed"`
 	LateL2MS int      `json:"late_l2_ms"` // L:2 connects this long after the last re-open (fresh target for the replay clause)
+	// Stall: the first incarnation's peer never reads and source L:1 has 130 tasks for R:1, so that the
+	// sender's 100-slot delivery channel fills and a deliverer is blocked on it (holding the OLD channel)
+	// while the next incarnation replaces the registration and the old one then closes that channel
+	Stall bool `json:"stall,omitempty"`
 }
 
 var cleanupPoints = []string{
@@ -83,6 +87,13 @@ func runLifecycle(c lifeCase) (viol []rec.Violation, counts map[string]int64, lo
 			// a watermark-only batch after every task: a receiver that (re)started has a last watermark soon
 			sc.Scripts[s] = append(sc.Scripts[s], Batch{High: id, WaitMS: 50})
 		}
+		if c.Stall && s == "L:1" {
+			sc.Scripts[s] = []Batch{{High: 100, WaitMS: 100}}
+			for id = 100; id < 230; id++ {
+				sc.Scripts[s] = append(sc.Scripts[s], Batch{IDs: []int64{id}, High: id + 1, WaitMS: 10})
+			}
+			sc.Scripts[s] = append(sc.Scripts[s], Batch{High: id, WaitMS: 50})
+		}
 		sc.Final[s] = id
 		sc.Targets[s] = TargetBeh{PerTaskMS: 100}
 	}
@@ -93,6 +104,11 @@ func runLifecycle(c lifeCase) (viol []rec.Violation, counts map[string]int64, lo
 	for _, s := range []string{"R:1", "R:2"} {
 		for id := int64(100); id < 120; id++ {
 			w.wf[fmt.Sprintf("%s/%d", s, id)] = [2]string{pns, pwf}
+		}
+	}
+	if c.Stall {
+		for id := int64(100); id < 240; id++ {
+			w.wf[fmt.Sprintf("L:1/%d", id)] = [2]string{pns, pwf} // every task of L:1 belongs to R:1
 		}
 	}
 	w.Rec = NewRecorder(sc)
@@ -137,6 +153,10 @@ func runLifecycle(c lifeCase) (viol []rec.Violation, counts map[string]int64, lo
 			cancel()
 		}()
 		go func() { // prompt reader that acks everything it has seen once a second
+			if c.Stall && n == 1 { // ... except the stalled first incarnation, which never reads
+				<-sctx.Done()
+				return
+			}
 			var high int64
 			got := false
 			tk := time.NewTicker(time.Second)
@@ -387,6 +407,11 @@ func runLifecycle(c lifeCase) (viol []rec.Violation, counts map[string]int64, lo
 		v("leftover:worker-running", "goroutines of the proxy still alive after all streams ended: %v", left)
 	}
 	counts["incarnations"] = int64(len(incs))
+	for k, n := range w.Probe.HitTable() {
+		if strings.HasPrefix(k, "Failed to deliver messages to local shard owner") {
+			counts["deliveries_that_hit_a_closed_channel"] += int64(n)
+		}
+	}
 	return
 }
 
@@ -432,6 +457,12 @@ func TestLifecycle(t *testing.T) {
 			}
 		}
 	}
+	// a deliverer blocked on the old incarnation's full channel while the registration is replaced
+	for _, oldEnd := range []int{300, 2500, 9000} {
+		cases = append(cases, lifeCase{Stall: true, Overlaps: []string{"healthy"}, OldEndMS: []int{oldEnd}, ParkMS: 200, LateL2MS: 1000})
+	}
+	cases = append(cases, lifeCase{Stall: true, Overlaps: []string{"healthy", "healthy"}, OldEndMS: []int{4000, 500}, ParkMS: 200, LateL2MS: 1000},
+		lifeCase{Stall: true, Overlaps: []string{"healthy", "after-cancel"}, OldEndMS: []int{1500, 0}, ParkMS: 200, LateL2MS: 1000})
 	nChains := 150
 	if rec.Thorough() {
 		nChains = 6000
@@ -450,6 +481,9 @@ func TestLifecycle(t *testing.T) {
 	for idx, c := range cases {
 		c.Seed = rec.Mix(rec.Seed(), fmt.Sprint(idx))
 		c.Name = fmt.Sprintf("life/%d/%s", idx, strings.Join(c.Overlaps, "+"))
+		if c.Stall {
+			c.Name += "/stalled-first"
+		}
 		if !rec.Want(idx, c.Name) {
 			continue
 		}
@@ -465,7 +499,7 @@ func TestLifecycle(t *testing.T) {
 			continue
 		}
 		counts["overlap_cases"] = 1
-		l := rec.Line{Case: c.Name, Viol: viol, Counts: counts, Class: strings.Join(c.Overlaps, "+") + fmt.Sprint(c.OldEndMS, c.ParkMS)}
+		l := rec.Line{Case: c.Name, Viol: viol, Counts: counts, Class: strings.Join(c.Overlaps, "+") + fmt.Sprint(c.OldEndMS, c.ParkMS, c.Stall)}
 		for i := range l.Viol {
 			l.Viol[i].Witness = map[string]any{"case": c, "log": log}
 		}
